@@ -297,6 +297,7 @@ type hopT struct {
 	mu    sync.Mutex
 	theta time.Duration
 	drop  bool
+	refuse bool // answer at once, but as an unsynchronized server (leap indicator 3): the client gets an immediate error
 	round int
 	recs  []*exRec
 	byRx  map[ntp.Time64]*exRec
@@ -328,7 +329,7 @@ func (h *hopT) loop() {
 		var q ntp.Packet
 		ntp.DecodePacket(&q, p.UDP.Payload)
 		h.mu.Lock()
-		theta, drop, round := h.theta, h.drop, h.round
+		theta, drop, refuse, round := h.theta, h.drop, h.refuse, h.round
 		e := &exRec{hop: h.idx, round: round, origin: q.OriginTime, interleavedForm: q.OriginTime != (ntp.Time64{}), theta: theta}
 		e.rx64 = ntp.Time64FromTime(r.Add(theta))
 		e.cited = h.byRx[q.OriginTime]
@@ -352,11 +353,16 @@ func (h *hopT) loop() {
 			resp.OriginTime = q.TransmitTime
 			resp.TransmitTime = e.tx64
 		}
-		h.mu.Lock()
-		h.byRx[e.rx64] = e
-		h.mu.Unlock()
+		if !refuse {
+			h.mu.Lock()
+			h.byRx[e.rx64] = e
+			h.mu.Unlock()
+		}
 		b := make([]byte, 48)
 		ntp.EncodePacket(&b, &resp)
+		if refuse {
+			b[0] |= 0xc0
+		}
 		rev, err := p.SCION.Path.Reverse()
 		if err != nil {
 			continue
@@ -390,7 +396,7 @@ func ftm(vs []time.Duration) time.Duration {
 	return s[f] + (s[len(s)-1-f]-s[f])/2
 }
 
-var recRound = ev.New("c15/multipath-rounds", "rapid state machine over rounds of the real MeasureClockOffsetSCION on loopback: 1..5 real SCIONClients (interleaved mode on/off, counting filters), 0..8 offered paths per round (subset / superset / permutation of the previous round's, withdrawals) whose next hops are distinct harness sockets that answer as SCION time servers with per-path clock offsets >= 2 s apart; per-path drop faults; crypto/rand scripted with rapid-drawn words. Oracle per round: no path => error and no request; otherwise the number of next hops that saw a request equals min(clients, paths) and no hop serves two clients; a client in interleaved mode whose previous path is still offered sends an interleaved-form request to exactly that path's next hop, a client whose previous path was withdrawn sends a basic request and its filter was reset; the returned offset is the fault-tolerant midpoint of the offsets of the paths that answered (50 ms tolerance) and an error is returned when none answered. One evaluation = one round. Non-trivial: round with >= 1 sticky client and >= 1 withdrawn path, or more clients than paths > 0; distinct by round-log hash")
+var recRound = ev.New("c15/multipath-rounds", "rapid state machine over rounds of the real MeasureClockOffsetSCION on loopback: 1..5 real SCIONClients (interleaved mode on/off, counting filters), 0..8 offered paths per round (subset / superset / permutation of the previous round's, withdrawals) whose next hops are distinct harness sockets that answer as SCION time servers with per-path clock offsets >= 2 s apart; per-path faults: no answer, or an immediate refusal (reply with leap indicator 3, so that a failed measurement completes before the successful ones); crypto/rand scripted with rapid-drawn words. Oracle per round: no path => error and no request; otherwise the number of next hops that saw a request equals min(clients, paths) and no hop serves two clients; a client in interleaved mode whose previous path is still offered sends an interleaved-form request to exactly that path's next hop, a client whose previous path was withdrawn sends a basic request and its filter was reset; the returned offset is the fault-tolerant midpoint of the offsets of the paths that answered (50 ms tolerance) and an error is returned when none answered. One evaluation = one round. Non-trivial: round with >= 1 sticky client and >= 1 withdrawn path, or more clients than paths > 0; distinct by round-log hash")
 
 func TestPropMultipathRounds(t *testing.T) {
 	vt.Check(t, 300, 1500, func(t *rapid.T) {
@@ -447,6 +453,7 @@ func TestPropMultipathRounds(t *testing.T) {
 			offered = rapid.Permutation(offered).Draw(t, "order")
 			// per-hop configuration
 			dropSet := map[int]bool{}
+			refuseSet := map[int]bool{}
 			thetas := map[int]time.Duration{}
 			for _, hidx := range offered {
 				thetaSeq++
@@ -456,11 +463,23 @@ func TestPropMultipathRounds(t *testing.T) {
 				}
 				thetas[hidx] = th
 				dropSet[hidx] = rapid.IntRange(0, 7).Draw(t, "drop") == 5
+				if !dropSet[hidx] && rapid.IntRange(0, 5).Draw(t, "refuse") == 3 {
+					refuseSet[hidx] = true
+				}
 			}
 			for i, h := range hops {
 				h.mu.Lock()
-				h.theta, h.drop, h.round, h.recs = thetas[i], dropSet[i], round, nil
+				h.theta, h.drop, h.refuse, h.round, h.recs = thetas[i], dropSet[i], refuseSet[i], round, nil
 				h.mu.Unlock()
+			}
+			// a path whose server refuses contributes no value, exactly like a path that does not answer - but the
+			// client learns it at once, before the other paths' results are in
+			noValue := map[int]bool{}
+			for k, v := range dropSet {
+				noValue[k] = v
+			}
+			for k := range refuseSet {
+				noValue[k] = true
 			}
 			// expectations from the clients' public state
 			type exp struct {
@@ -513,7 +532,7 @@ func TestPropMultipathRounds(t *testing.T) {
 				}
 				h.mu.Unlock()
 			}
-			log = append(log, fmt.Sprintf("round %d: offered %v drop %v -> hops used %d err=%v off=%v", round, offered, keys(dropSet), len(used), err, off))
+			log = append(log, fmt.Sprintf("round %d: offered %v drop %v refuse %v -> hops used %d err=%v off=%v", round, offered, keys(dropSet), keys(refuseSet), len(used), err, off))
 			if len(offered) == 0 {
 				if err == nil || len(used) != 0 {
 					t.Fatalf("no path offered: err=%v, %d next hops saw requests", err, len(used))
@@ -567,7 +586,7 @@ func TestPropMultipathRounds(t *testing.T) {
 			// the offset: FTM over the paths that answered
 			var answered []time.Duration
 			for hidx, recs := range used {
-				if dropSet[hidx] {
+				if noValue[hidx] {
 					continue
 				}
 				// the value a client reports describes the last accepted sub-exchange: current theta for a basic
@@ -594,7 +613,7 @@ func TestPropMultipathRounds(t *testing.T) {
 				}
 				// interleaved sub-exchanges make the exact per-path value depend on earlier rounds' offsets;
 				// accept the FTM over any admissible per-path value (current or previous offset of that path)
-				if !offsetAdmissible(off, used, dropSet, thetas, anyDrop) {
+				if !offsetAdmissible(off, used, noValue, thetas, anyDrop) {
 					t.Fatalf("reported offset %v is not the fault-tolerant midpoint of the answering paths' offsets %v (log %v)", off, answered, log)
 				}
 			}
